@@ -78,6 +78,7 @@ class Evaluator:
         self.stack = []          # inlined calls: (callee path, call node, caller body)
         self.loops = []          # enclosing loop nodes (one symbolic iteration is evaluated)
         self.top_body = None
+        self.fallthrough_pc = ()
         self.newtypes = self._numeric_newtypes()
         self.unknown = []        # constructs evaluated as opaque
 
@@ -112,24 +113,25 @@ class Evaluator:
         return ev
 
     def with_pc(self, conds, fn):
-        n = 0
+        mark = len(self.pc)
         for c in conds:
             c = T.unroot(c) if not T.is_bool(c) else c
             if T.is_bool(c):
                 c = T.simplify_under(c, self.pc)
             if T.is_bool(c) and c != T.TRUE:
                 self.pc.append(c)
-                n += 1
         try:
             return fn()
         finally:
-            for _ in range(n):
-                self.pc.pop()
+            del self.pc[mark:]
 
     def eval_entry(self, body, args=None):
         """evaluate a body as an entry point and then every closure in it that was not applied"""
         self.top_body = body
+        self.pc = []
         v = self.eval_body(body, args, 0)
+        self.fallthrough_pc = tuple(self.pc)
+        self.pc = []
         self.force_closures(body)
         return v
 
@@ -229,6 +231,23 @@ class Evaluator:
         if isinstance(fv, tuple) and fv and fv[0] == 'clo':
             return self.closures[fv[1]]
         return None
+
+    def norm_sum_iter(self, it):
+        """sum over filter(X, p).map(f)  ==  sum over X.map(|x| if p(x) {f(x)} else {0})"""
+        it = T.unroot(it)
+        if isinstance(it, tuple) and it and it[0] == 'map' and isinstance(it[1], tuple) and it[1] and it[1][0] == 'filter' \
+                and it[2][0] == 'lam' and it[1][2][0] == 'lam':
+            d = it[2][1]
+            p = self.shift_bv(it[1][2][2], it[1][2][1], d)
+            body = T.ite(p, it[2][2], T.const(0)) if T.is_bool(p) else None
+            if body is not None:
+                return self.norm_sum_iter(('map', it[1][1], ('lam', d, body)))
+        if isinstance(it, tuple) and it and it[0] == 'filter' and it[2][0] == 'lam':
+            d = it[2][1]
+            p = it[2][2]
+            if T.is_bool(p):
+                return self.norm_sum_iter(('map', it[1], ('lam', d, T.ite(p, T.as_lin(T.bv(d)), T.const(0)))))
+        return it
 
     def stage(self, name, it, lam):
         """build a lambda stage, fusing map.map and normalising trivial forms"""
@@ -393,7 +412,7 @@ class Evaluator:
 
             def inner():
                 v = self.ev(last['e'], env, body, depth) if last.get('e') else ('unit',)
-                self.emit('ret', last, body, value=v)
+                self.emit('ret', last, body, value=v, joined=True)
                 return v
             v = self.with_pc([cb], inner)
             return c, ('ret', v)
@@ -596,6 +615,17 @@ class Evaluator:
             else:
                 x = self.ev(inner, env, body, depth)
             self.trace.append(('try', e, x))
+            sty = (inner['args'][0].get('ty', '') if inner.get('k') == 'Call' and inner['args'] else '')
+            if sty.startswith('std::option::Option'):
+                xu = T.unroot(x)
+                if isinstance(xu, tuple) and xu and xu[0] == 'some':
+                    return xu[1]
+                cond = ('matches', xu, 'std::prelude::v1::Some(_)')
+                self.with_pc([T.tnot(cond)], lambda: self.emit('ret', e, body, value=('none',), joined=False))
+                c2 = T.simplify_under(cond, self.pc)
+                if c2 != T.TRUE:
+                    self.pc.append(c2)      # holds until the enclosing scope ends (with_pc truncates)
+                return T.root(('case', xu, 'Some', 0))
             return T.root(('try', T.unroot(x)))
         if src == 'ForLoopDesugar':
             return self.ev_forloop(e, env, body, depth)
@@ -615,11 +645,21 @@ class Evaluator:
                 res = self.join(c, vals[i], res)
             return res
         arms = []
-        for a in e['arms']:
+        earlier = []
+        n_arms = len(e['arms'])
+        for ai, a in enumerate(e['arms']):
             env_a = dict(env)
             self.bind(a['pat'], scrut, env_a)
             g = self.ev(a['guard'], env_a, body, depth) if a.get('guard') is not None else None
-            bv_ = self.ev(a['body'], env_a, body, depth)
+            cond = self.pattern_cond(a['pat'], scrut)
+            pcs = [T.tnot(c) for c in earlier]
+            if cond is not None and not (ai == n_arms - 1 and g is None):
+                pcs.append(cond)        # the last arm of an exhaustive match needs no condition of its own
+            if g is not None and T.is_bool(g):
+                pcs.append(g)
+            bv_ = self.with_pc(pcs, lambda: self.ev(a['body'], env_a, body, depth))
+            if cond is not None and g is None:
+                earlier.append(cond)
             arms.append((self.patkey(a['pat']), g, bv_))
         # bool-valued two-arm match on patterns (matches!): keep as 'matches'
         if len(arms) == 2 and arms[0][2] == T.TRUE and arms[1][2] == T.FALSE and arms[1][0] == '_':
@@ -632,6 +672,23 @@ class Evaluator:
         if any(T.is_lin(a[2]) for a in arms):
             return T.root(m)
         return m
+
+    def pattern_cond(self, p, scrut):
+        """condition under which an enum pattern matches; Option/Result have one canonical variant each"""
+        k = self.patkey(p)
+        if k == '_':
+            return T.TRUE
+        su = T.unroot(scrut)
+        short = k.split('::')[-1]
+        if short.startswith('None'):
+            return T.tnot(('matches', su, 'std::prelude::v1::Some(_)'))
+        if short.startswith('Some('):
+            return ('matches', su, 'std::prelude::v1::Some(_)')
+        if short.startswith('Err('):
+            return T.tnot(('matches', su, 'std::prelude::v1::Ok(_)'))
+        if short.startswith('Ok('):
+            return ('matches', su, 'std::prelude::v1::Ok(_)')
+        return ('matches', su, k)
 
     def bool_pattern(self, p, scrut):
         """condition under which a pattern made of bool literals / wildcards / tuples matches, or None"""
@@ -687,16 +744,84 @@ class Evaluator:
                         elif pk == 'Struct' and len(a['pat'].get('fields', [])) == 1:
                             arm = (a, a['pat']['fields'][0]['p'])
         if arm is not None:
-            item, facts = self.item_of(self.as_iter(it) if it is not None else None, e.get('_nid'))
+            itn = self.as_iter(it) if it is not None else None
+            item, facts = self.item_of(itn, e.get('_nid'))
             env_b = dict(env)
             self.bind(arm[1], item, env_b)
             self.loops.append(e)
+            ev_mark = len(self.events)
             try:
                 self.with_pc(facts, lambda: self.ev(arm[0]['body'], env_b, body, depth))
             finally:
                 self.loops.pop()
             self.havoc(e, env)
+            self.reduce_accumulators(e, itn, item, facts, snapshot, env, ev_mark)
         return ('unit',)
+
+    def reduce_accumulators(self, loopnode, it, item, facts, before, env, ev_mark):
+        """A `for` loop whose only effects are  acc = acc + g(item)  /  acc = max(acc, g(item))  /  acc = min(acc, g(item))
+        (possibly under a condition on the item) computes  init + sum / max / min  over the iterator: give the
+        accumulator that value instead of an unknown one, and mark the loop as reduced."""
+        if it is None:
+            return
+        nid = loopnode.get('_nid')
+        inner = [x for x in self.events[ev_mark:] if x['depth'] == len(self.stack) and x['loops'] and x['loops'][-1] == nid]
+        deeper = [x for x in self.events[ev_mark:] if nid in x['loops'] and (not x['loops'] or x['loops'][-1] != nid)]
+        if deeper or any(x['kind'] in ('ret', 'break', 'mutcall', 'loop') for x in inner):
+            return
+        assigns = [x for x in inner if x['kind'] == 'assign']
+        if not assigns or any(x['fields'] for x in assigns):
+            return
+        by_local = {}
+        for a in assigns:
+            by_local.setdefault(a['local'], []).append(a)
+        itemr = T.unroot(item)
+        if not (isinstance(itemr, tuple) and itemr and itemr[0] == 'item'):
+            return      # destructured / mapped items: not handled
+        base_pc = len(self.pc) + len([f for f in facts if f != T.TRUE])
+        results = {}
+        for lid, asg in by_local.items():
+            if len(asg) != 1 or lid not in before:
+                return
+            a = asg[0]
+            H = T.root(('havoc', lid, nid))
+            val = a['value']
+            # the condition on the item: path condition beyond the loop's own facts
+            cond = T.tand(*[c for c in a['pc'][base_pc:]]) if len(a['pc']) >= base_pc else None
+            if cond is None or T.mentions(cond, T.unroot(H)):
+                return
+            # no other loop-carried variable may enter
+            others = [T.unroot(T.root(('havoc', l2, nid))) for l2 in by_local if l2 != lid]
+            if any(T.mentions(val, o) or T.mentions(cond, o) for o in others):
+                return
+            d = self.bvd
+            sub = {itemr: T.bv(d)}
+            vl = T.as_lin(val)
+            rs = T.lin_roots(vl)
+            Hr = T.unroot(H)
+            if rs.get(Hr) == 1 and not any(r != Hr and T.mentions(r, Hr) for r in rs):
+                g = T.substitute(T.sub(vl, H), sub)
+                c = T.substitute(cond, sub)
+                src = ('map', ('filter', it, ('lam', d, c)), ('lam', d, g)) if c != T.TRUE else ('map', it, ('lam', d, g))
+                results[lid] = T.add(before[lid], T.root(('sum', self.norm_sum_iter(src))))
+                continue
+            vu = T.unroot(val)
+            if isinstance(vu, tuple) and vu and vu[0] in ('min', 'max') and len(vu[1]) == 2 and H in vu[1]:
+                other = [x for x in vu[1] if x != H][0]
+                if T.mentions(other, Hr):
+                    return
+                g = T.substitute(other, sub)
+                c = T.substitute(cond, sub)
+                src = ('map', ('filter', it, ('lam', d, c)), ('lam', d, g)) if c != T.TRUE else ('map', it, ('lam', d, g))
+                agg = T.root(('minof' if vu[0] == 'min' else 'maxof', src))
+                results[lid] = (T.tmin if vu[0] == 'min' else T.tmax)(before[lid], agg)
+                continue
+            return
+        for lid, v in results.items():
+            env[lid] = v
+        for x in self.events:
+            if x['kind'] == 'loop' and x['node'] is loopnode:
+                x['reduced'] = True
 
     def item_of(self, it, nid):
         """(term, facts) describing an arbitrary item of iterator term `it`"""
@@ -1068,8 +1193,30 @@ class Evaluator:
             if name in ('sum', 'product', 'max', 'min', 'max_by', 'min_by', 'count', 'last', 'next', 'peek', 'any', 'all',
                         'collect', 'fold', 'for_each', 'find', 'position', 'nth') and node is not None:
                 self.emit('consume', node, body, it=self.as_iter(a0), consumer=name)
-            if name in ('sum', 'product'):
+            if name == 'sum':
+                return T.root(('sum', self.norm_sum_iter(self.as_iter(a0))))
+            if name == 'product':
                 return T.root((name, self.as_iter(a0)))
+            if name == 'fold' and len(args) == 3:
+                it0 = self.as_iter(a0)
+                lam2 = self.lam(args[2], depth, 2)
+                d = lam2[1]
+                bodyl = T.as_lin(lam2[2])
+                acc = T.bv(d)
+                rs = T.lin_roots(bodyl)
+                if rs.get(acc) == 1 and not any(r != acc and T.mentions(r, acc) for r in rs):
+                    # fold(init, |acc, x| acc + g(x))  ==  init + sum(map(it, g))
+                    g = T.sub(bodyl, T.root(acc))
+                    g = T.substitute(g, {T.bv(d + 1): T.bv(d)})
+                    return T.add(args[1], T.root(('sum', self.norm_sum_iter(('map', it0, ('lam', d, g))))))
+                bu = T.unroot(lam2[2])
+                if isinstance(bu, tuple) and bu and bu[0] in ('min', 'max') and T.as_lin(acc) in bu[1] and len(bu[1]) == 2:
+                    other = [x for x in bu[1] if x != T.as_lin(acc)][0]
+                    if not T.mentions(other, acc):
+                        g = T.substitute(other, {T.bv(d + 1): T.bv(d)})
+                        agg = ('minof' if bu[0] == 'min' else 'maxof', ('map', it0, ('lam', d, g)))
+                        return (T.tmin if bu[0] == 'min' else T.tmax)(args[1], T.root(agg))
+                return T.root(('fold', it0, T.unroot(args[1]), lam2))
             if name == 'max':
                 return ('maxof', self.as_iter(a0))
             if name == 'min':
@@ -1100,6 +1247,10 @@ class Evaluator:
                 return T.root(('unwrap', v))
             if name == 'map' and len(args) == 2:
                 return ('optmap', T.unroot(a0), self.lam(args[1], depth))
+            if name == 'map_or' and len(args) == 3:
+                return self.opt_or(('optmap', T.unroot(a0), self.lam(args[2], depth)), args[1])
+            if name == 'map_or_else' and len(args) == 3:
+                return self.opt_or(('optmap', T.unroot(a0), self.lam(args[2], depth)), self.apply(args[1], [], depth))
             if name == 'filter' and len(args) == 2:
                 return ('optfilter', T.unroot(a0), self.lam(args[1], depth))
             if name in ('is_err', 'is_ok', 'is_some', 'is_none'):
@@ -1161,6 +1312,9 @@ class Evaluator:
 
     def opt_or(self, o, d):
         o = T.unroot(o)
+        if isinstance(o, tuple) and o and o[0] == 'maxof' and T.as_lin(d) == T.const(0):
+            # max over a possibly empty set of non-negative values, 0 if empty  ==  max{0, max over the set}
+            return T.tmax(T.const(0), T.root(o))
         if isinstance(o, tuple) and o and o[0] in ('some', 'ok'):
             return o[1]
         if o == ('none',):
